@@ -54,6 +54,9 @@ def check_string(s):
     got = libx.call('decode', B.decode, s)[1]
     if got != want:
         raise Violation('codec/decode', 'decode(%r)=%s expected %s' % (s[:40], got.hex()[:60], want.hex()[:60]))
+    if not isinstance(got, bytes):
+        # "decodes to the byte string": an immutable bytes value (usable as a dict key, never aliased to a scratch buffer)
+        raise Violation('codec/decode-type', 'decode(%r) returned a %s, not bytes' % (s[:40], type(got).__name__))
     back = libx.call('encode', B.encode, got)[1]
     if back != s:
         raise Violation('codec/encode-inverse', 'encode(decode(%r)) = %r' % (s[:40], back[:40]))
@@ -265,14 +268,14 @@ def t_exhaustive(ctx):
         ctx.exhaustive.append('leading-zero counts 0..40 x 5 tails; all-"1" strings 0..40')
         # one foreign character at every position class, every ASCII code point
         base = R.check_encode(0, bytes(range(20)))
-        for cp in list(range(0, 128)) + [0xe9, 0x3b1, 0x4e2d, 0x1f600]:
+        for cp in list(range(0, 128)) + [0xe9, 0x3b1, 0x4e2d, 0x1f600, 0xd800, 0xdbff, 0xdc80, 0xdfff, 0xfffe, 0x10ffff]:
             ch = chr(cp)
             if ch in ALPHA:
                 continue
             for pos in (0, 1, len(base) // 2, len(base) - 1, len(base)):
                 ctx.run({'kind': 'string', 's': base[:pos] + ch + base[pos:]})
                 ctx.run({'kind': 'anycheck', 's': base[:pos] + ch + base[pos + 1:]})
-        ctx.exhaustive.append('every non-alphabet ASCII code point at 5 position classes')
+        ctx.exhaustive.append('every non-alphabet ASCII code point (plus lone surrogates, U+FFFE, U+10FFFF) at 5 position classes')
         # look-alikes of every alphabet character (same low byte / 7 bits, full-width, other scripts' digits): never digits
         n_conf = 0
         for c in ALPHA:
